@@ -90,6 +90,67 @@ mut('C18', 'version', """        if not isinstance(other, Version):
 mut('C18', 'version', "elif self.version_extra == other.version_extra:\n            return 0",
     "elif self.version_extra == other.version_extra:\n            return 1")
 
+# ---- C16 ---------------------------------------------------------------------------
+mut('C16', 'sortabledict', "            index += 1\n", "            index += 2\n")
+mut('C16', 'sortabledict', "        if after and (index is not None):", "        if (not after) and (index is not None):")
+mut('C16', 'sortabledict', """                # We are re-locating.
+                del self[key]""", """                # We are re-locating.
+                pass""")
+mut('C16', 'sortabledict', """            if not replace:
+                raise KeyError('%r is duplicate' % key)
+""", "")
+mut('C10', 'sortabledict', """        if self._validate_fn:
+            self._validate_fn(value)
+
+        if (index""", """        if (index""", name='drop validator call')
+mut('C16', 'sortabledict', "self._order.insert(index, key)", "self._order.insert(index + 1, key)")
+mut('C16', 'sortabledict', """                # We are updating
+                self._values[key] = value
+                return""", """                # We are updating
+                self._values[key] = value
+                self._order.remove(key)
+                self._order.append(key)
+                return""")
+mut('C16', 'sortabledict', """        del self._values[key]
+        self._order.remove(key)""", """        self._order.remove(key)
+        del self._values[key]""")
+mut('C16', 'sortabledict', "return self._order[index]", "return self._order[index - 1]")
+mut('C16', 'metadata', "def append(self, key, value=MARKER, replace=True):", "def append(self, key, value=None, replace=True):")
+mut('C16', 'metadata', "self.append(key, value, replace=replace)", "self.append(key, value)")
+mut('C16', 'sortabledict', """            # Place at end
+            self._order.append(key)
+        self._values[key] = value""", """            # Place at end
+            self._values[key] = value
+            self._order.append(key)
+            return
+        self._values[key] = value""", 'OK')
+mut('C16', 'sortabledict', """        if self._validate_fn:
+            self._validate_fn(value)
+""", """        if self._validate_fn:
+            self._validate_fn(value)
+        self._values[key] = value
+""", name='store before refusals')
+
+# ---- C19 ---------------------------------------------------------------------------
+mut('C19', 'datatypes', """        if not isinstance(other, Ref):
+            return NotImplemented
+        return not (self == other)""", """        if not isinstance(other, Ref):
+            return NotImplemented
+        return (self == other)""")
+mut('C19', 'datatypes', "return hash(self.latitude) ^ hash(self.longitude)", "return hash(self.latitude) ^ hash(self.longitude) ^ hash(id(self))")
+mut('C19', 'datatypes', """               (self.has_value == other.has_value) and \\
+               (self.value == other.value)""", """               True""")
+mut('C19', 'datatypes', """    def __deepcopy__(self, memo):
+        return self""", """    def __deepcopy__(self, memo):
+        return self.__class__()""")
+mut('C19', 'grid', """        if len(self) != len(other):
+            return False
+""", "")
+mut('C19', 'grid', "if set(self.column.keys()) != set(other.column.keys()):", "if set(self.column.keys()) == set(other.column.keys()):")
+mut('C19', 'datatypes', "        return (self.latitude == other.latitude) and \\\n               (self.longitude == other.longitude)",
+    "        return (self.latitude == other.latitude) or \\\n               (self.longitude == other.longitude)")
+mut('C19', 'datatypes', "REMOVE = RemoveType()", "REMOVE = RemoveType()\nREMOVE_2 = RemoveType()")
+
 
 def run(selected):
     base_cache = {}
